@@ -559,6 +559,40 @@ pub fn run_seq(trace: &Trace, skip: &BTreeSet<usize>, opts: &SeqOpts) -> SeqOutc
             }
         }
 
+        // Timestamps (hook H5): the write time the cache keeps for the current value of a key
+        // is the reading at which it was written; the access time lies between the last access
+        // the cache must have honoured and the last access that took place. A wrong timestamp
+        // is a wrong deadline: later = C05 / C06 (observable too long), earlier = C03 (hidden
+        // or purged while alive).
+        if opts.oracles && !relaxed && cfg.has_expiry() {
+            for e in &snap.entries {
+                let kk = e.key as u16;
+                if model.tainted.contains_key(&kk) {
+                    continue;
+                }
+                if let Some(me) = model.entries.get(&kk) {
+                    if me.vid as u64 != e.value {
+                        continue;
+                    }
+                    rep.flag("timestamp_checks", 1);
+                    if let (Some(_), Some(lm)) = (cfg.ttl, e.last_modified) {
+                        if lm > me.t_mod {
+                            rep.viol("C05.write-time-late", format!("after {}: key {} (value {}) was written at reading {} but the cache keeps {} as its write time (its ttl deadline is late)", op.name(), kk, me.vid, me.t_mod, lm), i, Some(kk));
+                        } else if lm < me.t_mod {
+                            rep.viol("C03.write-time-early", format!("after {}: key {} (value {}) was written at reading {} but the cache keeps {} as its write time (it expires early)", op.name(), kk, me.vid, me.t_mod, lm), i, Some(kk));
+                        }
+                    }
+                    if let (Some(_), Some(la)) = (cfg.tti, e.last_accessed) {
+                        if la > me.t_acc_true {
+                            rep.viol("C06.access-time-late", format!("after {}: key {} (value {}) was last accessed at reading {} but the cache keeps {} as its access time (its idle deadline is late)", op.name(), kk, me.vid, me.t_acc_true, la), i, Some(kk));
+                        } else if la < me.t_acc_guar {
+                            rep.viol("C03.access-time-early", format!("after {}: key {} (value {}): the cache keeps {} as its access time although an access at reading {} has been applied (it expires early)", op.name(), kk, me.vid, la, me.t_acc_guar), i, Some(kk));
+                        }
+                    }
+                }
+            }
+        }
+
         if opts.oracles && !relaxed {
             let phys_w: u64 = snap.entries.iter().map(|e| e.weight as u64).sum();
             let phys_n = snap.entries.len() as u64;
